@@ -319,10 +319,11 @@ func (m *MethodMocker) Returns(values ...interface{}) *When {
 	if when, err = CreateWhen(m, m.methodIns, nil, nil, true); err != nil {
 		panic(err)
 	}
+	// 先校验并填充返回值, 校验失败时 mocker 保持原状
+	when.Returns(values...)
 	if err := m.whens(when); err != nil {
 		panic(err)
 	}
-	m.when.Returns(values...)
 	m.doApply(m.imp)
 	return when
 }
@@ -567,10 +568,11 @@ func (m *DefMocker) Returns(values ...interface{}) *When {
 	if when, err = CreateWhen(m, m.funcDef, nil, nil, false); err != nil {
 		panic(err)
 	}
+	// 先校验并填充返回值, 校验失败时 mocker 保持原状
+	when.Returns(values...)
 	if err := m.whens(when); err != nil {
 		panic(err)
 	}
-	m.when.Returns(values...)
 	m.doApply(m.imp)
 	return when
 }
